@@ -65,7 +65,11 @@ func GetSession(sid string) (*Session, bool) {
 	// Extend session expiration if close to expiring
 	if time.Until(sess.ExpiresAt) <= extendThreshold {
 		slog.Debug("Session close to expiring, extending expiration", "session_id", sid, "expires_at", sess.ExpiresAt)
-		sess.ExpiresAt = time.Now().Add(defaultLifetime)
+		// Sessions in the store are shared between requests and the garbage collector and are never
+		// modified in place: store an extended copy instead.
+		extended := *sess
+		extended.ExpiresAt = time.Now().Add(defaultLifetime)
+		sess = &extended
 		sessionStore.Set(sid, sess)
 	}
 
